@@ -251,6 +251,11 @@ def rewrite_func_as_lambda(f: ast.FunctionDef) -> ast.Lambda:
 
     # the arguments
     args = f.args
+    if args.kwonlyargs or args.vararg is not None or args.kwarg is not None:
+        raise ValueError(
+            f'Simple function "{f.name}" has keyword-only or variadic parameters - it can not '
+            "be written as a simple lambda."
+        )
     ret = cast(ast.Return, interesting_body[0])
     return ast.Lambda(args, ret.value)  # type: ignore
 
